@@ -291,16 +291,15 @@ Proof.
 Qed.
 
 (* ---------------------------------------------------------------------------------- *)
-(* A6  The executing TEAM may be smaller than the thread count seen at set-up (SchedTeam.v).
-   Both level schedulers size their per-thread tables with omp_get_max_threads() in the
-   constructor and later run  #pragma omp parallel { tid = omp_get_thread_num();
-   for (task : tasks[tid]) { rows; barrier } }.  OpenMP gives that region a team of k <= nt
-   threads (k < nt: region entered from an enclosing active parallel region with nested
-   parallelism off, thread limit, OMP_DYNAMIC, omp_set_num_threads lowered after set-up).
-     team_trunc k  : the code as it exists -- thread t < k runs tasks[t], tasks[t] for t >= k
-                     are run by nobody;
-     team_cyclic k : the repaired code -- thread t of k runs tasks[t], tasks[t+k], ... of the
-                     level, then the barrier.                                              *)
+(* A6  The executing TEAM may be smaller (or larger) than the thread count seen at set-up
+   (SchedTeam.v).  Both level schedulers size their per-thread tables with omp_get_max_threads()
+   in the constructor; OpenMP may give the later "#pragma omp parallel" a team of k <> nt threads
+   (k < nt: region entered from an enclosing active parallel region with nested parallelism off,
+   thread limit, OMP_DYNAMIC, omp_set_num_threads lowered after set-up).
+     team_cyclic k : the code since /repo 9f8f0d9 -- thread t of k runs tasks[t], tasks[t+k], ...
+                     of the level, then the barrier;
+     team_trunc k  : HISTORICAL, the code before 9f8f0d9 -- thread t < k runs tasks[t], tasks[t]
+                     for t >= k are run by nobody (finding C09-level-schedule-reduced-team).     *)
 From Amgcl Require Import SchedTeam.
 
 (* for the full team both are the semantics all theorems above are about *)
@@ -315,8 +314,8 @@ Proof.
 Qed.
 Print Assumptions C09_team_full_is_existing_semantics.
 
-(* the code as it exists under a reduced team is deterministic (so one run of the
-   implementation shows THE result) ... *)
+(* HISTORICAL: the code before 9f8f0d9 under a reduced team is deterministic (so one run of
+   the implementation showed THE result) ... *)
 Theorem C09_sptr_reduced_team_deterministic (S : Scalar) lower (A : crs S) (D : vec S) nt k l (x : vec S) :
   1 <= nt -> strict_tri lower A ->
   InterleaveLevels (team_trunc k (sptr_par_levels lower A D nt)) l ->
@@ -339,12 +338,14 @@ Theorem C09_reduced_team_skips_rows (V : Type) (d : V) (stp : nat -> step V) (k 
 Proof. exact (team_trunc_skips V d stp k sch i). Qed.
 Print Assumptions C09_reduced_team_skips_rows.
 
-(* REFUTED for the code as it exists (finding C09-level-schedule-reduced-team): a valid
+(* HISTORICAL (documentation of finding C09-level-schedule-reduced-team, fixed by /repo 9f8f0d9).
+   REFUTED for the code before the fix: a valid
    schedule built for nt = 4 and executed by a team of 2 is no longer a permutation of the
    rows, and EVERY interleaving differs from the serial result.
    sptr_solve<lower>: L rows {} {0:1} {0:1} {0:1}, x = (1,2,3,4): level 1 = rows 1,2,3 split
    1/1/1/0 over 4 threads; threads 0,1 give (1,1,2,4), the serial solve (1,1,2,3).
-   Replayed on the implementation by the ops ilu_team / gs_team of drv_sched.cpp.          *)
+   Replayed on the implementation before the fix by the ops ilu_team / gs_team of drv_sched.cpp
+   (same values); the check reports the old behaviour again if it comes back.               *)
 Theorem C09_sptr_reduced_team_refuted :
   exists (A : crs QcS) (D x : vec QcS) (nt k : nat),
     strict_tri true A /\ 1 <= k /\ k < nt /\
@@ -380,7 +381,7 @@ Theorem C09_team_cyclic_keeps_rows (X : Type) k (lv : list (list X)) : 1 <= k ->
 Proof. intro H. exact (conj (regroup_flat_perm k lv H) (regroup_length k lv)). Qed.
 Print Assumptions C09_team_cyclic_keeps_rows.
 
-(* REPAIRED execution (fixes/C09-level-schedule-reduced-team.diff): for every set-up count
+(* The execution since /repo 9f8f0d9: for every set-up count
    nt >= 1, EVERY team size k >= 1 (smaller, equal or larger than nt) and every interleaving
    the result is the serial sweep / solve (any value type) *)
 Theorem C09_sptr_solve_any_team (S : Scalar) lower (A : crs S) (D : vec S) nt k l (x : vec S) :
@@ -413,3 +414,56 @@ Example C09_team_nonvacuous :
   team_cyclic 3 (gs_schedule true team_A 5) = [[[0; 3]; [1]; [2]]] /\
   stride_idx 3 8 1 = [1; 4; 7].
 Proof. exact team_cyclic_nontrivial. Qed.
+
+(* ---------------------------------------------------------------------------------- *)
+(* A7  further hand-scheduled regions under a reduced team (SchedTeamKernels.v).
+   HISTORICAL: what a team of k <= nt executed of one level before 9f8f0d9: the first k of the
+   nt chunks = the prefix of length min(k*ceil(len/nt), len) of the level; the tail is skipped. *)
+From Amgcl Require Import SchedTeamKernels.
+Theorem C09_reduced_team_executes_level_prefix (X : Type) nt k (l : list X) : k <= nt ->
+  concat (firstn k (omp_chunks nt l)) = firstn (chunk_beg (length l) nt k) l.
+Proof. exact (team_trunc_level_prefix nt k l). Qed.
+Print Assumptions C09_reduced_team_executes_level_prefix.
+
+(* thread-indexed accumulators filled by a work-sharing loop (inner_product: sum[tid],
+   builtin.hpp:1152-1182; mpi::subdomain_deflation: erow(tid,.,.), subdomain_deflation.hpp:388-440):
+   nt slots start with the neutral element, "omp for" hands every iteration to one of the k <= nt team
+   threads, the slots are added up serially.  Slots of missing threads stay neutral (empty chunks):
+   the result is the serial one for every team size (ring: Kahan inner product; any AC operation). *)
+Theorem C09_inner_product_reduced_team (S : Scalar) (Srt : Sring S) (lens : list nat) (nt : nat) (x y : vec S) :
+  length (combine x y) <= fold_right Nat.add 0 lens ->
+  inner_product_parallel (lens ++ repeat 0 (nt - length lens)) x y = inner_product_serial x y.
+Proof. exact (inner_product_reduced_team Srt lens nt x y). Qed.
+Theorem C09_inner_product_reduced_team_Qc (lens : list nat) (nt : nat) (x y : vec QcS) :
+  length (combine x y) <= fold_right Nat.add 0 lens ->
+  inner_product_parallel (lens ++ repeat 0 (nt - length lens)) x y = inner_product_serial x y.
+Proof. exact (inner_product_reduced_team QcS_ring lens nt x y). Qed.
+Print Assumptions C09_inner_product_reduced_team_Qc.
+
+Theorem C09_thread_slots_reduced_team (X : Type) (op : X -> X -> X) (e : X) :
+  (forall a b c, op (op a b) c = op a (op b c)) -> (forall a b, op a b = op b a) -> op e e = e ->
+  forall (cs : list (list X)) (m : nat) (l : list X), Permutation (concat cs) l ->
+  reduce_chunked op e (cs ++ repeat [] m) = reduce op e l.
+Proof. exact (slots_reduced_team op e). Qed.
+Print Assumptions C09_thread_slots_reduced_team.
+
+(* spgemm_rmerge (amgcl/detail/spgemm.hpp:405-504), hand-scheduled with thread-private scratch
+   tmp_col[tid] / tmp_val[tid] (sized by omp_get_max_threads(), indexed by omp_get_thread_num() <
+   team <= max) inside "omp for" loops over the rows of A: in the model (MatOps2.v, C08) both passes
+   are maps over the rows of A, so every assignment of rows to the threads of a team of ANY size
+   and every interleaving gives the rows of spgemm_rmerge A B.  (That the scratch of a thread does
+   not leak from one row into the next is the modelling step; tied by running it in reduced teams.) *)
+From Amgcl Require Import MatOps2.
+Theorem C09_rmerge_numeric_pass_any_team (S : Scalar) (A B : crs S) (out : list (row S)) its l :
+  length out = length (rows A) -> Permutation (concat its) (seq 0 (length (rows A))) ->
+  Interleave (par_for_steps [] (fun i _ => prod_row (nth i (rows A) []) B) its) l ->
+  exec l out = rows (spgemm_rmerge A B).
+Proof. exact (map_rows_parallel (fun ra => prod_row ra B) [] [] (rows A) out its l). Qed.
+Print Assumptions C09_rmerge_numeric_pass_any_team.
+
+Theorem C09_rmerge_symbolic_pass_any_team (S : Scalar) (A B : crs S) (out : list nat) its l :
+  length out = length (rows A) -> Permutation (concat its) (seq 0 (length (rows A))) ->
+  Interleave (par_for_steps 0 (fun i _ => prod_row_width (map fst (nth i (rows A) [])) B) its) l ->
+  exec l out = rmerge_widths A B.
+Proof. exact (map_rows_parallel (fun ra => prod_row_width (map fst ra) B) [] 0 (rows A) out its l). Qed.
+Print Assumptions C09_rmerge_symbolic_pass_any_team.
